@@ -81,7 +81,7 @@ Theorem identical_pair_distance_zero : forall strict f dim s,
 Proof. exact identical_pair_zero. Qed.
 
 (** The duplicate shortcut of _PairwiseDistance.run (+ _expand) as in the pinned source
-    ([pairwise false]; [pairwise true] models the source with notes/proposed_fixes/C15-1.diff,
+    ([pairwise false]; [pairwise true] models the source after the fix notes/proposed_fixes/C15-1.diff (/repo commit fa2362385),
     the driver picks the variant from the current source text).  Full statement: every reported
     cell is what the calculator's function gives on that pair's own count matrix (or 0 for a pair
     without differences).  It is FALSE of the faithful model when sequences contain non-canonical
@@ -91,13 +91,13 @@ Definition stmt_duplicate_shortcut_exact : Prop :=
     aget (pairwise false f dim seqs) (i, j) = Some (CRes r) ->
     r = f (diversity (znth [] seqs i) (znth [] seqs j)).
 
-Theorem duplicate_shortcut_exact_refuted :
+Theorem prefix_duplicate_shortcut_refuted :
   exists seqs i j r,
     aget (pairwise false (hamming 4) 4 seqs) (i, j) = Some (CRes r) /\
     r <> hamming 4 (diversity (znth [] seqs i) (znth [] seqs j)).
 Proof. exact duplicate_shortcut_wrong. Qed.
 
-(** The fixed duplicate rule ([pairwise true]: the source with notes/proposed_fixes/C15-1.diff).
+(** The fixed duplicate rule ([pairwise true]: the source after notes/proposed_fixes/C15-1.diff, /repo commit fa2362385).
     FULL statement, proved for every alignment (any number of sequences, exact duplicates,
     gaps, ambiguity codes) and each of the modelled estimators: the cell of every ordered pair is 0
     for identical index arrays and otherwise the estimator's verdict ([cell_rule]: the function's
